@@ -383,8 +383,10 @@ impl Family for Deep {
         Some(1)
     }
     fn crash_signature(&self, idx: u64) -> String {
-        let (kind, _, stage) = self.split(idx);
-        format!("{}:{}:{}", if self.val { "val" } else { "f64" }, DEEP_KIND_NAMES[kind], STAGE_NAMES[stage])
+        // the call site that dies: stage (parse / convert / operate / differentiate) and data type;
+        // which nesting shapes reach the stack limit first shifts with every rebuild
+        let (_, _, stage) = self.split(idx);
+        format!("{}:deeply-nested-or-long-expression:{}", if self.val { "val" } else { "f64" }, STAGE_NAMES[stage])
     }
 }
 
